@@ -2,6 +2,7 @@
 import os, pty, select, subprocess, time, signal, re, fcntl, termios, struct
 
 PROMPT = b"btcdeb> "
+MAX_OUTPUT = 64 << 20        # bytes a single tool run may print before it is stopped (the largest legitimate listings are a few MB)
 
 
 def run_cli(argv, stdin_data=None, stdin_tty=False, stdout_tty=False, env=None, timeout=20, cwd=None):
@@ -49,6 +50,10 @@ def run_cli(argv, stdin_data=None, stdin_tty=False, stdout_tty=False, env=None, 
                         d = b""
                     if d: out += d
                     else: fds.remove(m_out)
+                    if len(out) > MAX_OUTPUT:
+                        try: os.killpg(p.pid, signal.SIGKILL)
+                        except ProcessLookupError: pass
+                        break
                 if p.stderr in r:
                     d = p.stderr.read()
                     if d: err += d
@@ -73,12 +78,37 @@ def run_cli(argv, stdin_data=None, stdin_tty=False, stdout_tty=False, env=None, 
             except OSError:
                 pass
         else:
-            try:
-                out, err = p.communicate(None if stdin_tty else (stdin_data or b""), timeout=timeout)
-            except subprocess.TimeoutExpired:
-                os.killpg(p.pid, signal.SIGKILL)
-                out, err = p.communicate()
-                return {"code": None, "signal": "TIMEOUT", "stdout": out.decode(errors="replace"), "stderr": err.decode(errors="replace")}
+            # collect both streams with a bound: a tool that floods its output (a broken length field printed as data, a loop) is stopped and
+            # reported like a hang instead of being buffered without limit by the check
+            if not stdin_tty:
+                try:
+                    p.stdin.write(stdin_data or b""); p.stdin.close()
+                except (BrokenPipeError, OSError):
+                    pass
+            t0 = time.time(); err = b""; chunks = []; total = 0
+            os.set_blocking(p.stdout.fileno(), False); os.set_blocking(p.stderr.fileno(), False)
+            fds = [p.stdout, p.stderr]
+            verdict = None
+            while fds:
+                r, _, _ = select.select(fds, [], [], 0.05)
+                for f in r:
+                    d = f.read(1 << 20)
+                    if d:
+                        total += len(d)
+                        if f is p.stdout: chunks.append(d)
+                        else: err += d
+                    elif d == b"":
+                        fds.remove(f)
+                if total > MAX_OUTPUT: verdict = "FLOOD"
+                elif time.time() - t0 > timeout: verdict = "TIMEOUT"
+                if verdict:
+                    try: os.killpg(p.pid, signal.SIGKILL)
+                    except ProcessLookupError: pass
+                    break
+            p.wait()
+            out = b"".join(chunks)
+            if verdict:
+                return {"code": None, "signal": verdict, "stdout": out[:1 << 16].decode(errors="replace"), "stderr": err[-(1 << 16):].decode(errors="replace")}
     finally:
         for m in masters:
             try: os.close(m)
